@@ -40,7 +40,7 @@ PLANS = {
                 what="trrel provider: history-interpreter programs, every access pattern inside the recursive SCC and in later strata"),
     "C12": dict(tags={"ds12"}, variants=["ser"], cap={"quick": 500, "thorough": 4000},
                 what="trrel_uf provider: history-interpreter programs, every access pattern inside the recursive SCC and in later strata"),
-    "C09": dict(tags={"pack"}, variants=["ser", "run", "mrt", "gen", "src0", "src1", "src2", "redecl", "init", "to",
+    "C09": dict(tags={"pack"}, variants=["ser", "run", "mrt", "gen", "src0", "src1", "src2", "srcto", "redecl", "init", "to",
                                          "runpar", "srcpar"],
                 cap={"quick": 50, "thorough": 400}, what="packaging variants of one logical program"),
 }
@@ -54,6 +54,37 @@ def select_cases(cases, cap, rnd):
     keep = srt[: cap // 3]
     rest = srt[cap // 3:]
     return keep + rnd.sample(rest, cap - len(keep))
+
+
+def random_inputs(p, rnd):
+    """A random database for program p: up to 8 tuples per input relation over a domain of 6 constants (lattice input
+    relations: one row per key; the first column of BYODS `sched` relations stays an iteration number 0..2)."""
+    dom = 6 if max(len(r["cols"]) for r in p["rels"] if r["input"]) <= 3 else 4
+    inputs = {}
+    for r in p["rels"]:
+        if not r["input"]:
+            continue
+        if not r["cols"]:
+            inputs[r["name"]] = [] if r["name"] == "never" else rnd.choice([[], [[]]])
+            continue
+        n = rnd.choice([0, 1, 2, 4, 6, 8])
+        rows, keys = [], set()
+        for _ in range(n):
+            row = []
+            for i, c in enumerate(r["cols"]):
+                if c == "opt":
+                    row.append({"tag": "none"} if rnd.random() < 0.3 else {"tag": "some", "v": rnd.randrange(dom)})
+                elif r["name"] == "sched" and i == 0:
+                    row.append(rnd.randrange(3))
+                else:
+                    row.append(rnd.randrange(dom))
+            key = json.dumps(row[:-1] if r["kind"] == "lat" else row)
+            if key in keys:
+                continue
+            keys.add(key)
+            rows.append(row)
+        inputs[r["name"]] = rows
+    return inputs
 
 
 def thorough_bounds(p):
@@ -132,6 +163,28 @@ def run(pid, tier, seed, replay=None):
                 cases.append(case)
                 meta[cid] = dict(case=case, inputs={}, lm=by[p["name"]][0]["lm"] if not any(by[p["name"]][0]["inputs"].values()) else {}, prog=p)
                 plan_cases[cid] = p["name"]
+    # seeded random databases beyond the exhaustive bound: up to 8 tuples per input relation over {0..5}, skewed sizes,
+    # shuffled push order (the oracle is still TLC: TraceSem recomputes the least model of whatever was pushed)
+    nrand = 0
+    if not replay:
+        per_prog = plan.get("random", {"quick": 6, "thorough": 40})[tier]
+        rnd_items = []
+        for p in sel:
+            for k in range(per_prog):
+                rnd_items.append({"id": len(rnd_items) + 1, "pi": pidx[p["name"]], "inputs": random_inputs(p, rnd), "prog": p})
+        lms, evres = semlib.eval_least_models(sel, rnd_items, work)
+        for r in evres:
+            out.add_tlc(r, "SemEval (least models of the seeded random databases)")
+        for it in rnd_items:
+            p = it["prog"]
+            for v in [v for v in plan["variants"] if (p["name"], v) in mods]:
+                cid += 1
+                ops = semlib.input_ops(p, it["inputs"], rnd) + [{"op": "run"}]
+                case = semlib.make_case(cid, p, pidx[p["name"]], v, ops)
+                cases.append(case)
+                meta[cid] = dict(case=case, inputs=it["inputs"], lm=lms[it["id"]], prog=p)
+                nrand += 1
+    out.extra["random_large_input_cases"] = nrand
     log(f"[sem] {pid}: {nprogs} programs, {len(cases)} cases")
     raw = finish_cases(out, pid, sel, cases, meta, mods, bindir, work)
     conf, drift = 0, []
@@ -145,6 +198,20 @@ def run(pid, tier, seed, replay=None):
         else:
             drift.append({"program": name, "model": a, "code": b})
     out.extra["plan_conformance"] = {"programs_compared": len(plan_cases), "conform": conf, "drift": drift[:10]}
+    if pid == "C09" and tier == "thorough" and not replay:
+        # the same cases once more on the corpus rebuilt with the cargo feature ascent/segment-codegen
+        import shutil
+        rc2, txt2, bindir2 = semlib.build_corpus(shards, crates, segment=True)
+        try:
+            if rc2 != 0:
+                out.violation({"property": pid, "engine": "sem", "kind": "does-not-compile",
+                               "summary": "the corpus does not compile with ascent/segment-codegen", "compiler_output": txt2[-4000:]})
+            else:
+                seg_cases = [c for c in cases if c["id"] not in plan_cases]
+                finish_cases(out, pid, sel, seg_cases, meta, mods, bindir2, os.path.join(work, "segment"))
+                out.extra["segment_codegen_cases"] = len(seg_cases)
+        finally:
+            shutil.rmtree(os.path.join(vlib.BUILD, "target-seg"), ignore_errors=True)
     out.exhaustive = all(len(by[p["name"]]) <= (plan["cap"][tier] or 10**9) for p in sel)
     out.rule = (f"{plan['what']}. TLC (SemGen) enumerates every input database with at most `bound` tuples over the constant "
                 f"domain of each selected program (cap per program and variant: {plan['cap'][tier]}, seeded choice beyond it, largest "
@@ -187,7 +254,7 @@ def finish_cases(out, pid, sel, cases, meta, mods, bindir, work, extra_checks=No
         case_events.append((c["id"], norm))
         out.evaluations += 1
         m = meta[c["id"]]
-        derived = sum(len(v) for v in m["lm"].values()) - sum(len(v) for v in m["inputs"].values())
+        derived = (sum(len(v) for v in m["lm"].values()) - sum(len(v) for v in m["inputs"].values() if isinstance(v, list))) if m["lm"] else 1
         if derived > 0:
             out.nontriv((c["prog"], c["var"], json.dumps(m["inputs"], sort_keys=True), json.dumps(c["ops"][-3:], sort_keys=True)))
         if len(out.samples) < 3 and derived > 2:
